@@ -15,7 +15,8 @@ AllocBounded(r) ==
   LET lenKb == CeilKb(r.len) IN
   /\ r.max_single_kb <= Bound(lenKb, r.declared_kb)
   /\ r.peak_kb <= Bound(lenKb, r.declared_end_kb)
-  /\ (r.refused > 0 => r.refused_mb * 1024 <= Bound(lenKb, r.declared_at_refused_kb))
+  \* a refused request (above 64 MiB) in MiB: K0 = 64 MiB, the stream is at most 1 MiB long in every corpus
+  /\ (r.refused > 0 => r.refused_mb <= 64 + K * (((lenKb + 1023) \div 1024) + r.declared_at_refused_mb))
 
 \* ---------------- the guards of the code as preconditions (Level B): each guarded count, once it passes its guard, sizes an array that
 \* the bound dominates.  rem = remaining input bytes, np / nf / nc = declared points / faces / corners, e = element size in bytes.
